@@ -302,8 +302,14 @@ func vpH_C07_populated() {
 	cell := vpTypeNames[ti] + "." + fields[f].Name + "/" + string([]byte{'0' + byte(shape/10), '0' + byte(shape%10)})
 	var y Item
 	var err error
-	isJSON := vpBool()
-	if isJSON {
+	way := vpChoice(3)
+	isJSON := way < 2
+	if way == 1 {
+		// a document written by the harness's own writer (terms from the jsonld tags): what the decoder
+		// puts into the struct's own fields, not what a round trip through the library's writer hides
+		cell += "/document"
+		y, err = UnmarshalJSON(vpDocOf(x, 0))
+	} else if isJSON {
 		cell += "/json"
 		var b []byte
 		b, err = vpMarshalItem(x)
@@ -322,11 +328,16 @@ func vpH_C07_populated() {
 		vpAssert("populated/type-name/"+cell, y.GetType() == x.GetType())
 		// ... and carries the property that was written
 		want := vpCloneItem(x)
-		if isJSON {
+		got := y
+		if way == 1 {
+			got = vpCloneItem(y)
+			vpC05Normal(want)
+			vpC05Normal(got)
+		} else if isJSON {
 			vpC01Normal(want, ti, f)
 		}
 		if vpSameGoType(x, y) {
-			vpDiffItems("populated/carries/"+cell, want, y, nil)
+			vpDiffItems("populated/carries/"+cell, want, got, nil)
 		}
 	}
 	vpReach("end")
